@@ -6,5 +6,6 @@ CONSTANTS
   GroupAuthz = FALSE
   Callers = {"alice", "bob"}
   DeepReload = TRUE
+  LenSet = {0, 1}
   PolicyClients = {"alice", "bob"}
 CHECK_DEADLOCK FALSE
